@@ -299,7 +299,11 @@ class Interp:
         frame = {"__self__": selfkey}
         a = fi.node.args
         params = [p.arg for p in a.posonlyargs + a.args]
-        if params and params[0] in ("self", "cls"):
+        if "__selfval__" in args:
+            # a method of a concrete value (NamedTuple instance): `self` is that value
+            frame[params[0]] = args.pop("__selfval__")
+            params = params[1:]
+        elif params and params[0] in ("self", "cls"):
             params = params[1:]
         defaults = a.defaults
         pos_defaults = dict(zip(params[len(params) - len(defaults):], defaults)) if defaults else {}
@@ -659,6 +663,14 @@ class Interp:
                     return ast.literal_eval(node)
                 except (ValueError, SyntaxError):
                     pass
+                # a constant expression: containers of literals, lambdas, compiled patterns (e.g. a dispatch table hoisted to module level)
+                if isinstance(node, (ast.Tuple, ast.List, ast.Dict, ast.Set, ast.Lambda)) or (isinstance(node, ast.Call) and unparse(node.func) in ("re.compile", "frozenset", "tuple", "dict")):
+                    try:
+                        v = self.eval(node, {})
+                    except (Undecidable, Raised):
+                        v = None
+                    if v is not None and not isinstance(v, (Residual, Obj)):
+                        return v
         return Residual(e.id)
 
     def e_Attribute(self, e, frame):
@@ -703,6 +715,14 @@ class Interp:
                     if pr and "get" in pr:
                         return self.call_function(pr["get"], {}, base.name)
             return Residual(k)
+        if isinstance(base, NTV):
+            if e.attr in base.fields:
+                return base.field(e.attr)
+            if e.attr == "_fields":
+                return base.fields
+            pr = base.ci.properties.get(e.attr)
+            if pr and "get" in pr:
+                return self.call_function(pr["get"], {"__selfval__": base}, "__value__")
         if isinstance(base, (str, list, dict, tuple, int, float)):
             return _Bound(base, e.attr)
         raise Undecidable(f"attribute {e.attr} of {base!r}")
@@ -974,8 +994,18 @@ class Interp:
                 raise Undecidable(f"call on bound builtin {full}")
             else:
                 # method of a concrete builtin value
-                args = [self.eval(a, frame) for a in e.args]
+                args = self._pos_args(e, frame)
                 ckw = {k.arg: self.eval(k.value, frame) for k in e.keywords if k.arg}
+                if isinstance(recv, NTV):
+                    if meth == "_replace":
+                        return recv.replace(**ckw)
+                    if meth == "_asdict":
+                        return dict(zip(recv.fields, recv))
+                    if meth in recv.ci.methods:
+                        a = dict(ckw)
+                        a["__pos__"] = args
+                        a["__selfval__"] = recv
+                        return self.call_function(recv.ci.methods[meth], a, "__value__")
                 if isinstance(recv, (list, dict)) and meth in ("append", "extend", "insert", "pop", "remove", "clear", "get", "setdefault", "update", "copy", "index", "count", "keys", "values", "items"):
                     try:
                         return getattr(recv, meth)(*args, **ckw)
@@ -995,12 +1025,29 @@ class Interp:
             if f.id in frame and isinstance(frame[f.id], Residual):
                 ckey = frame[f.id].text
             if f.id in frame and isinstance(frame[f.id], _Closure):
-                return frame[f.id](*[self.eval(a, frame) for a in e.args])
+                return frame[f.id](*self._pos_args(e, frame))
             if f.id in frame and isinstance(frame[f.id], _MethodRef):
-                return frame[f.id](*[self.eval(a, frame) for a in e.args], **{k.arg: self.eval(k.value, frame) for k in e.keywords if k.arg})
+                return frame[f.id](*self._pos_args(e, frame), **{k.arg: self.eval(k.value, frame) for k in e.keywords if k.arg})
+            # a NamedTuple class of the analysed source: its instances are concrete tuples with named fields
+            if f.id not in frame and self.idx is not None and self.idx.has_cls(f.id) and len(self.idx.classes[f.id]) == 1 and "NamedTuple" in self.idx.classes[f.id][0].bases:
+                ci = self.idx.classes[f.id][0]
+                names, defaults = _nt_fields(ci)
+                pos = self._pos_args(e, frame)
+                kw = {k.arg: self.eval(k.value, frame) for k in e.keywords if k.arg}
+                vals = []
+                for i, n in enumerate(names):
+                    if i < len(pos):
+                        vals.append(pos[i])
+                    elif n in kw:
+                        vals.append(kw[n])
+                    elif n in defaults:
+                        vals.append(self.eval(defaults[n], {}))
+                    else:
+                        raise Raised("TypeError")
+                return NTV(ci, names, vals)
         else:
             raise Undecidable(f"computed callee {full}")
-        args = [self.eval(a.value if isinstance(a, ast.Starred) else a, frame) for a in e.args]
+        args = self._pos_args(e, frame)
         kwargs = {}
         for k in e.keywords:
             if k.arg:
@@ -1158,6 +1205,19 @@ class Interp:
             return Residual(f"{ckey}({', '.join([txt(a) for a in args] + [k + '=' + txt(v) for k, v in kwargs.items()])})")
         raise Undecidable(f"call to unmodelled callee {ckey} in {full}")
 
+    def _pos_args(self, e, frame):
+        """positional arguments of a call with `*iterable` expanded"""
+        out = []
+        for a in e.args:
+            if isinstance(a, ast.Starred):
+                v = self.eval(a.value, frame)
+                if not isinstance(v, (list, tuple)):
+                    raise Undecidable(f"* of a value that is not a concrete sequence in {unparse(e)}")
+                out.extend(v)
+            else:
+                out.append(self.eval(a, frame))
+        return out
+
     def record_call(self, key, value=None):
         self.path.trace.append(("call", key, value))
 
@@ -1234,6 +1294,43 @@ class _MethodRef:
 
     def __repr__(self):
         return f"<method {self.fi.qual}>"
+
+
+class NTV(tuple):
+    """an instance of a NamedTuple class defined in the analysed source: a tuple whose fields are also attributes"""
+
+    def __new__(cls, ci, fields, values):
+        o = tuple.__new__(cls, values)
+        o.ci = ci
+        o.fields = tuple(fields)
+        return o
+
+    def field(self, name):
+        return self[self.fields.index(name)]
+
+    def replace(self, **kw):
+        vals = list(self)
+        for k, v in kw.items():
+            vals[self.fields.index(k)] = v
+        return NTV(self.ci, self.fields, vals)
+
+    def __deepcopy__(self, memo):
+        import copy
+        return NTV(self.ci, self.fields, [copy.deepcopy(v, memo) for v in self])
+
+    def __repr__(self):
+        return f"{self.ci.name}({', '.join(f'{k}={_show(v)}' for k, v in zip(self.fields, self))})"
+
+
+def _nt_fields(ci):
+    """(field names, default nodes) of a `class X(NamedTuple)` body"""
+    names, defaults = [], {}
+    for st in ci.node.body:
+        if isinstance(st, ast.AnnAssign) and isinstance(st.target, ast.Name):
+            names.append(st.target.id)
+            if st.value is not None:
+                defaults[st.target.id] = st.value
+    return names, defaults
 
 
 class _Bound:
